@@ -8,7 +8,8 @@ from common import (coqchk, Rng, assumptions, coq_bytes, coq_eval, coq_make, har
 
 PROP = "C15"
 THEOREMS = ["C15_model_smoke", "C15_frame_shape", "C15_bytes_are_frames", "C15_batching_irrelevant", "C15_prefix_on_failure",
-            "C15_overflow_requests_close", "C15_non_interference"]
+            "C15_overflow_requests_close", "C15_non_interference",
+            "C15_no_connection_ever_waits_for_a_message_buffer", "C15_buffers_in_use_bounded", "C15_unguarded_batches_starve_others_refuted", "C15_unguarded_stuck_until_the_stalled_write_ends", "C15_source_write_budget"]
 PRELUDE = ("From NW Require Import Base.Bytes Model.SchemaTypes Gen.Schema Model.Codec Model.Outbound Model.Server "
            "Conf.CodecConf Conf.OutboundConf.\n")
 
@@ -95,6 +96,100 @@ def stalled_histories(r, n):
         ops.append({"t": "advance", "ms": 50, "resume": True})
         cases.append({"cfg": cfg, "ops": ops})
     return cases
+
+
+def backlog_histories(r, n):
+    """stalled members with a DEEP backlog: one publisher pipelines 100-300 broadcasts in a single chunk while one or two
+    members of the channel do not read at all; the connection table is small, so the shared message-buffer pool
+    (2*max_connections + 128) is of the order of the backlog.  The publisher must get every BROADCAST_ACK, the healthy
+    member every MESSAGE (in order, intact), and afterwards both must still be served."""
+    cases = []
+    for i in range(n):
+        cfg = sl.base_cfg(r, None)
+        maxc = r.choice([4, 4, 5, 8])
+        cfg.update({"max_clients": 10, "max_subs": 10, "max_conns": maxc, "max_channels": 100, "max_inflight": 1000, "queue": 2048, "max_payload": 1024})
+        users = ["alice", "bob", "carol", "dave"]
+        n_stalled = 1 if i % 2 == 0 else 2
+        ops = []
+        for k, u in enumerate(users, start=1):
+            ops.append({"t": "open", "k": k, "duplex": r.choice([64, 256, 1024]) if k <= n_stalled else (1 << 20)})
+            ops.append({"t": "send", "k": k, "bytes": sl.frame("CONNECT", [("version", 1), ("heartbeat_interval", 0)]).hex()})
+            ops.append({"t": "send", "k": k, "bytes": sl.frame("IDENTIFY", [("username", u)]).hex()})
+            ops.append({"t": "send", "k": k, "bytes": sl.frame("JOIN", [("id", 10 + k), ("channel", "!c1@localhost")]).hex()})
+        for k in range(1, n_stalled + 1):
+            ops.append({"t": "stall", "k": k})
+        nb = r.randint(100, 300)
+        blob = b""
+        pls = []
+        for j in range(nb):
+            pl = bytes(r.randrange(256) for _ in range(r.choice([3, 8, 40])))
+            pls.append(pl.hex())
+            blob += sl.frame("BROADCAST", [("id", 1000 + j), ("channel", "!c1@localhost"), ("length", len(pl))], pl)
+        ops.append({"t": "send", "k": 3, "bytes": blob.hex(), "backlog": pls})
+        ops.append({"t": "advance", "ms": 100, "backlog_more": True})
+        ops.append({"t": "send", "k": 3, "bytes": sl.frame("MEMBERS", [("id", 7), ("channel", "!c1@localhost")]).hex(), "after": 3})
+        ops.append({"t": "send", "k": 4, "bytes": sl.frame("MEMBERS", [("id", 8), ("channel", "!c1@localhost")]).hex(), "after": 4})
+        cases.append({"cfg": cfg, "ops": ops, "n_stalled": n_stalled})
+    return cases
+
+
+def exhaust_histories(r):
+    """directed (known finding K15b): a tiny payload pool (128 buffers), a queue larger than that, one member not reading and a
+    backlog of 200 broadcasts; and the same history with everybody reading (control: must be served completely)"""
+    cases = []
+    for stalled in (True, False):
+        cfg = sl.base_cfg(r, None)
+        cfg.update({"max_clients": 10, "max_subs": 10, "max_conns": 4, "max_channels": 100, "max_inflight": 1000, "queue": 256, "max_payload": 1024, "budget": 65536})
+        ops = []
+        for k, u in enumerate(["alice", "bob", "carol", "dave"], start=1):
+            ops.append({"t": "open", "k": k, "duplex": 256 if (k == 1 and stalled) else (1 << 20)})
+            ops.append({"t": "send", "k": k, "bytes": sl.frame("CONNECT", [("version", 1), ("heartbeat_interval", 0)]).hex()})
+            ops.append({"t": "send", "k": k, "bytes": sl.frame("IDENTIFY", [("username", u)]).hex()})
+            ops.append({"t": "send", "k": k, "bytes": sl.frame("JOIN", [("id", 10 + k), ("channel", "!c1@localhost")]).hex()})
+        if stalled:
+            ops.append({"t": "stall", "k": 1})
+        blob, pls = b"", []
+        for j in range(200):
+            pl = bytes(r.randrange(256) for _ in range(8))
+            pls.append(pl.hex())
+            blob += sl.frame("BROADCAST", [("id", 1000 + j), ("channel", "!c1@localhost"), ("length", len(pl))], pl)
+        ops.append({"t": "send", "k": 3, "bytes": blob.hex(), "backlog": pls})
+        ops.append({"t": "advance", "ms": 100})
+        ops.append({"t": "send", "k": 3, "bytes": sl.frame("MEMBERS", [("id", 7), ("channel", "!c1@localhost")]).hex()})
+        ops.append({"t": "send", "k": 4, "bytes": sl.frame("MEMBERS", [("id", 8), ("channel", "!c1@localhost")]).hex()})
+        cases.append({"cfg": cfg, "ops": ops, "n_stalled": 1 if stalled else 0})
+    return cases
+
+
+def check_backlog(case, ob, violations):
+    if "ops" not in ob:
+        violations.append(("deep-backlog history could not run: " + str(ob)[:200], case))
+        return
+    pls = next(op["backlog"] for op in case["ops"] if "backlog" in op)
+    acks, got = 0, []
+    after = {}
+    seen = False
+    for op, o in zip(case["ops"], ob["ops"]):
+        seen = seen or "backlog" in op
+        if not seen:
+            continue
+        for f in o["conns"].get("3", {"frames": []})["frames"]:
+            if "undecodable" not in f and sl.frame_name(f) == "BROADCAST_ACK":
+                acks += 1
+            if "undecodable" not in f and sl.frame_name(f) == "MEMBERS_ACK":
+                after[3] = True
+        for f in o["conns"].get("4", {"frames": []})["frames"]:
+            if "undecodable" not in f and sl.frame_name(f) == "MESSAGE":
+                got.append(f["payload"])
+            if "undecodable" not in f and sl.frame_name(f) == "MEMBERS_ACK":
+                after[4] = True
+    who = "%d member(s) not reading, backlog of %d broadcasts, max_connections %d" % (case["n_stalled"], len(pls), case["cfg"]["max_conns"])
+    if acks != len(pls):
+        violations.append(("the publisher received %d of %d BROADCAST_ACKs (%s): a slow consumer blocks the publisher" % (acks, len(pls), who), case))
+    elif got != pls:
+        violations.append(("a healthy member received %d of %d MESSAGEs (or out of order / damaged) (%s): a slow consumer blocks deliveries to others" % (len(got), len(pls), who), case))
+    elif not (after.get(3) and after.get(4)):
+        violations.append(("after the backlog the healthy connections are no longer served (%s)" % who, case))
 
 
 def check_stalled(case, ob, violations, known_seen, known):
@@ -259,6 +354,27 @@ def run(tier, replay=None):
             stats["stalled_receiver_histories"] = len(st)
             for c, ob in zip(st, sobs):
                 check_stalled(c, ob, violations, known_seen, known)
+        bl = backlog_histories(r, 16 if thorough else 4)
+        bobs, hout = sl.run_histories(bl, "debug", tag="backlog", timeout=900)
+        if bobs is None:
+            violations.append(("deep-backlog scenario hung or crashed the whole server: " + hout[-300:], bl[0]))
+        else:
+            stats["deep_backlog_histories"] = len(bl)
+            for c, ob in zip(bl, bobs):
+                check_backlog(c, ob, violations)
+        ex = exhaust_histories(r)
+        eobs, hout = sl.run_histories(ex, "debug", tag="exhaust", timeout=600)
+        if eobs is None:
+            violations.append(("payload-pool exhaustion scenario hung or crashed the whole server: " + hout[-300:], ex[0]))
+        else:
+            stats["payload_pool_exhaustion_histories"] = len(ex)
+            for c, ob in zip(ex, eobs):
+                mine = []
+                check_backlog(c, ob, mine)
+                if mine and c["n_stalled"] and "K15b" in known:
+                    known_seen.setdefault("K15b", c)       # the listed finding: a stalled backlog pins the whole payload pool
+                else:
+                    violations.extend(mine)
         if (broken or disagreements) and not violations:
             log("proof/correspondence broken; extended search")
             search(gen_cases(Rng(seed() + 7919), 500, True), "x")
